@@ -491,6 +491,9 @@ def set_bound(tree):
                 for k, e in enumerate(ap[0].elts):
                     env[e.id] = ("num", k, "LNone")
                 continue
+            if ap and is_name(ap[0]) and is_name(ap[1]) and env.get(ap[1].id, ("",))[0] == "num":
+                env[ap[0].id] = env[ap[1].id]          # a copy of a number (immutable): same value, same log10 state
+                continue
             if ap and is_name(ap[0]):
                 val = sb_value(ap[1], env, var)
                 if val is None:
@@ -821,19 +824,44 @@ def update(tree):
 def init_and_fitness(tree):
     init = find_func(tree, "__init__", CLS)
     # lower, upper = self._set_bound(); self._lower_boundaries = lower; self._upper_boundaries = upper
+    # data flow of the pair: names / attributes of self that hold the pair or its element k
     pair, attrs, procs_copy = None, {}, None
+    holds = {}                       # local name -> "pair" | 0 | 1
     for s in ast.walk(init):
         ap = assign_parts(s) if isinstance(s, (ast.Assign, ast.AnnAssign)) else None
         if not ap:
             continue
         t, v = ap
+        what = None
         if isinstance(v, ast.Call) and u(v.func) == "self._set_bound" and not v.args and not v.keywords:
-            if not (isinstance(t, ast.Tuple) and len(t.elts) == 2 and all(is_name(e) for e in t.elts)):
-                fail(s, "__init__: result of _set_bound() is not unpacked into two names")
-            pair = [e.id for e in t.elts]
-        elif isinstance(t, ast.Attribute) and is_name(t.value, "self") and is_name(v) and pair and v.id in pair:
-            attrs[t.attr] = pair.index(v.id)
-        elif is_name(t) and isinstance(v, ast.List) and len(v.elts) == 1 and isinstance(v.elts[0], ast.Call) \
+            what = pair = "pair"
+        elif is_name(v) and v.id in holds:
+            what = holds[v.id]
+        elif isinstance(v, ast.Subscript) and is_name(v.value) and holds.get(v.value.id) == "pair" \
+                and isinstance(v.slice, ast.Constant) and v.slice.value in (0, 1, -1, -2) \
+                and not isinstance(v.slice.value, bool):
+            what = v.slice.value % 2
+        if what is not None:
+            dests = [(t, what)]
+            if isinstance(t, ast.Tuple):
+                if what != "pair" or len(t.elts) != 2:
+                    fail(s, "__init__: result of _set_bound() is not unpacked into two parts")
+                dests = [(t.elts[0], 0), (t.elts[1], 1)]
+            for d, w in dests:
+                if is_name(d):
+                    if d.id in holds and holds[d.id] != w:
+                        fail(s, "__init__: a name holds two different parts of the result of _set_bound()")
+                    holds[d.id] = w
+                elif isinstance(d, ast.Attribute) and is_name(d.value, "self") and w != "pair":
+                    if d.attr in attrs and attrs[d.attr] != w:
+                        fail(s, "__init__: an attribute is assigned two different boundary lists")
+                    attrs[d.attr] = w
+                else:
+                    fail(s, "__init__: the result of _set_bound() goes somewhere that is not a listed shape")
+            continue
+        if is_name(t) and t.id in holds or isinstance(t, ast.Attribute) and is_name(t.value, "self") and t.attr in attrs:
+            fail(s, "__init__: a holder of the boundary lists is assigned something else")
+        if is_name(t) and isinstance(v, ast.List) and len(v.elts) == 1 and isinstance(v.elts[0], ast.Call) \
                 and u(v.elts[0].func) in ("deepcopy", "copy.deepcopy", "copy.copy", "copy"):
             if not (len(v.elts[0].args) == 1 and is_name(v.elts[0].args[0], "processor")):
                 fail(s, "__init__: copy of something that is not the processor")
@@ -1458,6 +1486,17 @@ def convert_values_norm(pv_tree):
                 fail(s, "convert_values: `if isinstance(values, ...): return ...` with an unlisted class / container")
             rules += [(c, k) for c in cs]
             continue
+        if isinstance(s, ast.For) and not s.orelse:
+            # a loop that fills a list built before it (`out = []` ... `out.append(x)`): the outer container is unchanged
+            stored = {n.id for n in ast.walk(s) if isinstance(n, ast.Name) and isinstance(n.ctx, (ast.Store, ast.Del))}
+            touched = [n for n in ast.walk(s) if isinstance(n, ast.Attribute) and is_name(n.value) and n.value.id in env]
+            if not (stored & (set(env) | {vname})) and all(env[n.value.id] == "KList" and n.attr in ("append", "extend")
+                                                           for n in touched) \
+                    and not any(isinstance(n, (ast.Return, ast.Subscript)) and (isinstance(n, ast.Return) or
+                                is_name(n.value) and n.value.id in env and isinstance(n.ctx, (ast.Store, ast.Del)))
+                                for n in ast.walk(s)):
+                continue
+            fail(s, "convert_values: loop is not a listed shape")
         if isinstance(s, ast.Return):
             default = container_of(s.value, env)
             if default is None:
